@@ -555,6 +555,8 @@ def find(req):
     hint = req.get("extra") or {}
     wit = req.get("witness") or {}
     n = wit.get("n") if isinstance(wit, dict) else None
+    if req.get("known_finding"):
+        return known(req["known_finding"])
     if req.get("sweep"):
         s = sweep(fixtures_only=bool(req.get("fixtures_only")))
         return {"reproduced": bool(s), "failures": s[:50], "count": len(s), "files": len(fixture_files())}
